@@ -231,8 +231,8 @@ class MsgDirective(ExtractableI18NDirective):
             previous = next(stream)
             strip = True
         for event in stream:
-            if event[0] is START:
-                for message in translator._extract_attrs(event,
+            if previous[0] is START:
+                for message in translator._extract_attrs(previous,
                                                          gettext_functions,
                                                          search_text=search_text):
                     yield message
